@@ -129,13 +129,13 @@ def drive(contract, c, s, gen):
                     for name, f in ci.guarantee:
                         c.spec_mode += 1
                         try:
-                            c.assume(to_z3_bool(f(old_view(o, before), o)))
+                            c.assume_value(f(old_view(o, before), o))
                         finally:
                             c.spec_mode -= 1
         for f in ys.rely:
             c.spec_mode += 1
             try:
-                c.assume(to_z3_bool(f(s, before_ns, y)))
+                c.assume_value(f(s, before_ns, y))
             finally:
                 c.spec_mode -= 1
         s._seg = c.heap.snapshot()
